@@ -5,6 +5,23 @@ V = os.path.dirname(os.path.dirname(os.path.abspath(__file__)))
 
 CLAIMS = {
     # id: (level, technique, text, note, design_ref)
+    "C04": ("model_checking",
+            "TLC model checking of Stream.tla (enc/dec/aead buffer machines) + trace validation against CryptoTrace.tla where TLC recomputes every mode from Modes.tla over block-cipher tables",
+            "Every SM4/AES mode of the API (ECB, CBC+padding, CBC blocks, CTR, CTR32, CFB-s, OFB, XTS one-shot and data-unit streaming, GCM, CCM, CBC-MAC, encrypt-then-MAC composites; one-shot, streaming, in place, "
+            "block_cipher dispatch) is driven with TLC-generated chunkings and dense lengths; TLC judges each execution by evaluating the mode's definition written from its standard; decryption inputs come from the independent reference.",
+            "Trusted: TLC; block functions of ref/sm4ref.py, ref/aesref.py and GF(2^128) multiplication of ref/gf128ref.py (standard vectors). ZUC and ChaCha20 are not yet bound to the specification in this tier (see DESIGN.md).",
+            "4/C04"),
+    "C05": ("fault_enumeration",
+            "TLC model checking of Aead.tla (ideal MAC, one tamper, all chunkings) + enumeration of the bit-flip/truncation/extension neighbourhood validated against CryptoTrace.tla",
+            "For each AEAD scheme and API style the genuine tuple must decrypt to the plaintext TLC computes, and every enumerated modification of nonce, AAD, ciphertext and tag must be refused (contract: a touched tuple is never accepted).",
+            "Trusted: TLC, reference encryption producing the genuine tuples. Known finding: the CBC/CTR+HMAC composites do not authenticate the IV.",
+            "4/C05"),
+    "C11": ("model_checking",
+            "TLC model checking of Tls.tla/Aead.tla + trace validation of the record-protection API against the layouts in Modes.tla and of live connections with faulted application records against TlsTrace.tla",
+            "TLC recomputes the protected record bytes from the CBC+HMAC and TLS 1.3 layouts (IV from the interposed entropy source), checks identity for every payload length class, refusal of the whole modification neighbourhood, "
+            "other sequence numbers and forged all-padding plaintexts; live connections behind the proxy show that duplicated, swapped, dropped or altered application records are refused.",
+            "Trusted: TLC, reference primitive tables, harness drivers. Identity over all lengths is observed through the library's own protect+unprotect with bytes compared by the driver.",
+            "4/C11"),
     "C08": ("model_checking",
             "TLC model checking of Tls.tla/TlsStream.tla + trace validation of real connections against TlsTrace.tla",
             "TLC checks key agreement and honest-run liveness for the three handshakes and the chunked stream contract exhaustively on the small model; "
